@@ -752,7 +752,8 @@ class Plane(Generic[LTComponentT]):
     """
 
     def __init__(self, bbox: Rect, gridsize: int = 50) -> None:
-        self._seq: List[LTComponentT] = []  # preserve the object order.
+        # preserve the object order (insertion-ordered, each object once).
+        self._seq: Dict[LTComponentT, None] = {}
         self._objs: Set[LTComponentT] = set()
         self._grid: Dict[Point, List[LTComponentT]] = {}
         self.gridsize = gridsize
@@ -795,7 +796,7 @@ class Plane(Generic[LTComponentT]):
             else:
                 r = self._grid[k]
             r.append(obj)
-        self._seq.append(obj)
+        self._seq[obj] = None
         self._objs.add(obj)
 
     def remove(self, obj: LTComponentT) -> None:
@@ -805,6 +806,7 @@ class Plane(Generic[LTComponentT]):
                 self._grid[k].remove(obj)
             except (KeyError, ValueError):
                 pass
+        self._seq.pop(obj, None)
         self._objs.remove(obj)
 
     def find(self, bbox: Rect) -> Iterator[LTComponentT]:
